@@ -721,6 +721,11 @@ class Exec:
                 return self.get_attr(base, attr, n)
             return ("method", base, attr)
         if isinstance(base, SV):
+            if base.kind == "val" and (base.tags is None or "opaque" in base.tags):
+                # an object stored in a list[val] is its identity OpaqueV(oid): when the path condition pins the value to one known object, use it
+                r = self.resolve_object(base)
+                if r is not None:
+                    return self.attr_of(r, attr, n)
             if base.kind == "none" and not self.spec_mode:
                 raise PyRaise("AttributeError", f"None.{attr}")
             if base.kind == "val" and not self.spec_mode:
@@ -809,6 +814,12 @@ class Exec:
                         t, fits = ops.elem_term(oa.elem, self.as_scalar(it))
                         seq = z3.Concat(seq, z3.Unit(t))
                     return self.alloc(HList(oa.elem, seq))
+                if isinstance(oa, HTuple) and isinstance(ob, HList):
+                    seq = None
+                    for it in oa.items:
+                        t, fits = ops.elem_term(ob.elem, self.as_scalar(it))
+                        seq = z3.Unit(t) if seq is None else z3.Concat(seq, z3.Unit(t))
+                    return self.alloc(HList(ob.elem, ob.seq if seq is None else z3.Concat(seq, ob.seq)))
                 if isinstance(oa, HTuple) and isinstance(ob, HTuple):
                     return self.alloc(HTuple(oa.items + ob.items))
             raise OutsideSubset(f"binop {op} on references")
@@ -845,6 +856,21 @@ class Exec:
         self.maybe_raise(te, "TypeError", f"compare {sym}")
         return r
 
+    def resolve_object(self, v):
+        t = z3.simplify(ops.to_val(v))
+        cands = [oid for oid, o in self.heap.items() if isinstance(o, HObj)]
+        if z3.is_app(t) and t.decl().name() == "OpaqueV" and z3.is_int_value(t.arg(0)):
+            k = t.arg(0).as_long()
+            return Ref(k) if k in cands else None
+        if len(cands) > 40:
+            return None
+        for oid in cands:
+            if not getattr(self.heap[oid], "stored", False):
+                continue
+            if not self.feasible(t != Val.OpaqueV(z3.IntVal(oid))):
+                return Ref(oid)
+        return None
+
     def identical(self, a, b):
         if isinstance(a, ElemRef) or isinstance(b, ElemRef):
             if isinstance(a, ElemRef) and isinstance(b, ElemRef):
@@ -858,8 +884,11 @@ class Exec:
         if isinstance(a, Ref) and isinstance(b, Ref):
             return z3.BoolVal(a.oid == b.oid)
         if isinstance(a, Ref) or isinstance(b, Ref):
-            other = b if isinstance(a, Ref) else a
+            other, r = (b, a) if isinstance(a, Ref) else (a, b)
             if isinstance(other, SV):
+                if other.kind == "val" and (other.tags is None or "opaque" in other.tags) and isinstance(self.heap.get(r.oid), HObj):
+                    # an object that was stored in a list[val] is represented there by its identity
+                    return ops.to_val(other) == Val.OpaqueV(z3.IntVal(r.oid))
                 return z3.BoolVal(False)
         if isinstance(a, SV) and isinstance(b, SV):
             return ops.same_object(a, b)
@@ -868,6 +897,12 @@ class Exec:
         raise OutsideSubset("is")
 
     def equal(self, a, b):
+        # x.__class__ == str   (exact type of a scalar)
+        for x, y in ((a, b), (b, a)):
+            if isinstance(x, tuple) and len(x) == 3 and x[0] == "method" and x[2] == "__class__" and isinstance(x[1], SV):
+                if isinstance(y, tuple) and y[0] == "builtin" and y[1] in ("str", "int", "bool", "float"):
+                    return ops.tag_is(x[1], {"str": "str", "int": "int", "bool": "bool", "float": "real"}[y[1]])
+                raise OutsideSubset("__class__ compared with something other than a builtin scalar type")
         if isinstance(a, ElemRef) or isinstance(b, ElemRef):
             return self.identical(a, b)
         if isinstance(a, EnumVal):
@@ -924,6 +959,11 @@ class Exec:
                 if item.kind == "val":
                     self.maybe_raise(z3.Not(ops.tag_is(item, "str")), "TypeError", "in str needs str")
                 return z3.Contains(ops.as_str(container), ops.as_str(item))
+            if self.spec_mode and isinstance(item, SV):
+                # `x in <number>` is a TypeError in Python; inside a specification it only occurs under a type guard: unconstrained value
+                return z3.Bool(fresh_name("in_nonstr"))
+            if container.kind in ("int", "bool", "real", "none"):
+                raise PyRaise("TypeError", "in on non-container")
             raise OutsideSubset(f"in on scalar {container}")
         if isinstance(container, Ref):
             o = self.heap[container.oid]
@@ -989,7 +1029,9 @@ class Exec:
         return self.alloc(HList(elem, z3.simplify(seq)))
 
     def e_List(self, n):
-        return self.alloc(HTuple([self.eval(e) for e in n.elts]))
+        t = HTuple([self.eval(e) for e in n.elts])
+        t.literal = True
+        return self.alloc(t)
 
     def e_Tuple(self, n):
         return self.alloc(HTuple([self.eval(e) for e in n.elts], is_tuple=True))
@@ -1327,6 +1369,12 @@ class Exec:
                 self.heap[ref.oid].fresh = True
                 self.inline(lk[1], ref, args, kw)
                 return ref
+            if lk and lk[0] == "method" and self.ctx.registry.callee(f"{lk[1].file}::{lk[1].qualname}"):
+                # construction against the constructor's contract: a fresh object, then the modular call step
+                ref = self.alloc(HObj(name, cref.cf, fresh_name(name.lower())))
+                self.heap[ref.oid].fresh = True
+                self.use_contract(lk[1], f"{lk[1].file}::{lk[1].qualname}", ref, args, kw)
+                return ref
         raise OutsideSubset(f"construction of {name}")
 
     def builtin(self, name, args, kw, n):
@@ -1362,6 +1410,19 @@ class Exec:
             return S(self.str_of(args[0]))
         if name == "int":
             return self.to_int(args[0])
+        if name == "float" and len(args) == 1 and isinstance(args[0], SV):
+            v = args[0]
+            if v.kind in ("int", "bool"):
+                return SV("real", z3.ToReal(ops.as_int(v)))
+            if v.kind == "real":
+                return v
+            if v.kind == "str":
+                # float(str): an uninterpreted total function of the text plus an uninterpreted "parses" predicate ([A]: nothing else is known about it)
+                ok = z3.Function("py_float_ok", z3.StringSort(), z3.BoolSort())
+                fo = z3.Function("py_float_of", z3.StringSort(), z3.RealSort())
+                self.maybe_raise(z3.Not(ok(v.term)), "ValueError", "float(str)")
+                return SV("real", fo(v.term))
+            raise OutsideSubset("float() of a dynamically typed value")
         if name == "bool":
             return B(self.truth(args[0]))
         if name == "max" or name == "min":
@@ -1439,6 +1500,10 @@ class Exec:
                 if o.clsname in BUILTIN_EXC:
                     return z3.BoolVal(exc_is_a(self.facts, o.clsname, cname))
                 raise OutsideSubset(f"isinstance on object of unknown class {o.path}")
+        if isinstance(v, SV) and v.kind == "val" and (v.tags is None or "opaque" in v.tags):
+            r = self.resolve_object(v)
+            if r is not None:
+                return self.isinstance(r, cls)
         if isinstance(v, SV):
             tagmap = {"int": ("int", "bool"), "bool": ("bool",), "str": ("str",), "float": ("real",)}
             if cname in tagmap:
@@ -1532,7 +1597,13 @@ class Exec:
             return self.dict_method(recv, o, name, args)
         raise OutsideSubset(f"method {name}")
 
+    STR_ONLY = {"strip", "lstrip", "rstrip", "lower", "upper", "find", "rfind", "startswith", "endswith", "isdecimal", "isdigit", "isnumeric", "isalpha",
+                "isalnum", "split", "rsplit", "replace", "join", "format", "title", "capitalize", "splitlines", "encode", "partition", "zfill", "isspace"}
+
     def str_method(self, recv, name, args, kw):
+        if name not in self.STR_ONLY and not (recv.kind == "str"):
+            # only for methods that exist on str and on no other scalar type is "not a str" an AttributeError
+            raise OutsideSubset(f"method .{name} on a scalar of kind {recv.kind}")
         if recv.kind == "val":
             self.maybe_raise(z3.Not(ops.tag_is(recv, "str")), "AttributeError", f".{name} on non-str")
         elif recv.kind != "str":
@@ -1663,6 +1734,7 @@ class Exec:
             return I(v.idx)
         if isinstance(v, Ref) and isinstance(self.heap.get(v.oid), HObj):
             # an object stored in a list[val] is its identity
+            self.heap[v.oid].stored = True
             return ops.V(Val.OpaqueV(z3.IntVal(v.oid)), ("opaque",))
         if not isinstance(v, SV):
             raise OutsideSubset("reference stored in a typed list")
@@ -1764,8 +1836,12 @@ class Exec:
     # -- modular call: assert pre, havoc frame, assume post --------------------------------
     def use_contract(self, unit, target, recv, args, kw):
         cands = self.ctx.registry.callee(target)
-        dflt = [c for c in cands if c.native.get("callee_default")]
-        cands = dflt or [c for c in cands if c.variant == ""] or cands
+        want = getattr(self.contract, "callee_variants", {}).get(unit.qualname)
+        if want is not None:
+            cands = [c for c in cands if c.variant == want]
+        else:
+            dflt = [c for c in cands if c.native.get("callee_default")]
+            cands = dflt or [c for c in cands if c.variant == ""] or cands
         if len(cands) != 1:
             raise OutsideSubset(f"{len(cands)} contract variants for callee {target}; mark one callee_default")
         cc = cands[0]
@@ -1840,6 +1916,9 @@ class Exec:
             if nm in ("fs_exists", "fs_isfile", "fs_isdir", "path_join", "path_basename", "path_dirname"):
                 vals = [self.eval(a) for a in n.args]
                 return self.pure_external(nm, "bool" if nm.startswith("fs_") else "str", vals)
+            if nm == "float_of":
+                v = self.eval(n.args[0])
+                return SV("real", z3.Function("py_float_of", z3.StringSort(), z3.RealSort())(ops.as_str(v)))
             if nm == "int_of":
                 v = self.eval(n.args[0])
                 return I(ops.py_int_of(ops.as_str(v)))
@@ -1858,6 +1937,8 @@ class Exec:
                 if k >= len(es):
                     raise OutsideSubset("no such effect on this path")
                 return es[k][1]
+            if nm == "split_dot":
+                return self.alloc(HList("str", ops.split_dot(ops.as_str(self.eval(n.args[0])))))
             if nm == "iota":
                 k = ops.as_int(self.eval(n.args[0]))
                 return self.alloc(HList("int", ops.iota(k)))
@@ -2291,6 +2372,18 @@ class Exec:
 
     def s_While(self, s):
         key = self.loop_key()
+        if self.contract.invariants.get(key) is None and not s.orelse:
+            # a loop that provably runs zero times on this path needs no invariant (guard evaluated without forking)
+            saved = self.spec_mode
+            self.spec_mode = True
+            try:
+                g = z3.simplify(self.truth(self.eval(s.test)))
+            except OutsideSubset:
+                g = None
+            finally:
+                self.spec_mode = saved
+            if g is not None and (z3.is_false(g) or not self.feasible(g)):
+                return
         return self.cut_loop(key, s, kind="while", idx_name=None)
 
     def loop_targets(self, s):
@@ -2334,6 +2427,9 @@ class Exec:
                 o.seq = z3.Const(fresh_name(label), ops.seq_sort(o.elem))
                 return v
             if isinstance(o, HTuple):
+                if getattr(o, "literal", False) and not o.is_tuple:
+                    # a `[...]` literal has a fixed shape here; whoever havocs it may change its length
+                    raise OutsideSubset(f"list literal {label} is modified by a callee or loop: declare it under list_literals")
                 o.items = [self.havoc_value(it, f"{label}.{i}") for i, it in enumerate(o.items)]
                 return v
             if isinstance(o, HRec):
@@ -2643,12 +2739,35 @@ class CalleeView:
                         ex.assume(ex.spec(e))
                     raise PyRaise(exc, f"callee {cc.ident}")
             for cl, e in cc.ensures.items():
+                if self.bind_reference_clause(e):
+                    continue
                 ex.assume(ex.spec(e, result=res))
             return res
         finally:
             if ex.old_stack and ex.old_stack[-1] is saved_old:
                 ex.old_stack.pop()
             ex.locals, ex.contract, ex.old_state, ex.bound = saved_locals, saved_contract, saved_old, saved_bound
+
+    def bind_reference_clause(self, e):
+        """a callee postcondition `self.f is x` (x an object) cannot be assumed over a havoced object field: it is applied as a binding"""
+        ex = self.ex
+        try:
+            t = ast.parse(e, mode="eval").body
+        except SyntaxError:
+            return False
+        if not (isinstance(t, ast.Compare) and len(t.ops) == 1 and isinstance(t.ops[0], ast.Is) and isinstance(t.left, ast.Attribute)):
+            return False
+        saved = ex.spec_mode
+        ex.spec_mode = True
+        try:
+            right = ex.eval(t.comparators[0])
+            base = ex.eval(t.left.value)
+        finally:
+            ex.spec_mode = saved
+        if isinstance(right, Ref) and isinstance(base, Ref) and isinstance(ex.heap[base.oid], HObj):
+            ex.heap[base.oid].fields[t.left.attr] = right
+            return True
+        return False
 
     def havoc_path(self, p):
         ex = self.ex
